@@ -1,86 +1,80 @@
-"""C19 — the reader tolerates missing optional content (guard lint)."""
+"""C19 — the reader tolerates missing optional content (guard lint).
+
+The rules look at NORMALISED code (ctx.view: private helpers expanded in place, hoisted literals substituted) and compare
+ALIAS-EXPANDED expressions (temporaries such as `project = h5file[name]`, `uid_str = as_str_if_uuid(uid)` undone), so that a
+verdict depends on what is looked up under which guard, not on how the lookup is spelled or where it lives."""
 
 from __future__ import annotations
 
 import ast
 
 from ..cfg import CFG, forward
+from ..kinds import tv
 from ..model import AnalysisError, unparse
 from ..report import RuleResult
-from .c10 import _handle_expr, _mentions
-from ..roles import canon, writer_roles
+from ..roles import bound_from, calls
+from ._c19_lib import (
+    CATCHES,  # noqa: F401  (re-exported)
+    Alias,
+    bound_by,
+    facts_of,
+    guard_regions,
+    guarded_ids,
+    handle_expr,
+    inner_facts,
+    is_kind_selector,
+    is_materialisation,
+    is_project_group,
+    node_exprs,
+    reader_units,
+    root_names,
+    strip_view,
+    tainted_names,
+)
 
-CATCHES = {"KeyError", "Exception", "BaseException", "LookupError"}
-
-
-def facts_of(test, truth: bool) -> set:
-    if isinstance(test, ast.UnaryOp) and isinstance(test.op, ast.Not):
-        return facts_of(test.operand, not truth)
-    if isinstance(test, ast.BoolOp):
-        if isinstance(test.op, ast.And) and truth:
-            return set().union(*[facts_of(v, True) for v in test.values])
-        if isinstance(test.op, ast.Or) and not truth:
-            return set().union(*[facts_of(v, False) for v in test.values])
-        return set()
-    if isinstance(test, ast.Compare) and len(test.ops) == 1:
-        if (isinstance(test.ops[0], ast.In) and truth) or (isinstance(test.ops[0], ast.NotIn) and not truth):
-            return {(unparse(test.left), unparse(test.comparators[0]))}
-        if isinstance(test.ops[0], ast.Eq) and truth and isinstance(test.left, ast.Name) and isinstance(test.comparators[0], ast.Constant):
-            return {("==", test.left.id, test.comparators[0].value)}
-    return set()
-
-
-def tainted_names(fn):
-    tainted = set()
-    params = fn.params
-    if fn.kind in ("classmethod", "method") and params:
-        params = params[1:]
-    for prm, arg in zip(params, [a for a in fn.node.args.args if a.arg in params]):
-        ann = unparse(arg.annotation) if arg.annotation is not None else ""
-        if prm in ("file", "h5file") or "h5py" in ann:
-            tainted.add(prm)
-    changed = True
-    while changed:
-        changed = False
-        for n in ast.walk(fn.node):
-            if isinstance(n, ast.With):
-                for it in n.items:
-                    if it.optional_vars is not None and isinstance(it.optional_vars, ast.Name) and _mentions(it.context_expr, tainted):
-                        if it.optional_vars.id not in tainted:
-                            tainted.add(it.optional_vars.id)
-                            changed = True
-            if isinstance(n, ast.Assign) and len(n.targets) == 1 and isinstance(n.targets[0], ast.Name):
-                if _handle_expr(n.value, tainted) and n.targets[0].id not in tainted:
-                    tainted.add(n.targets[0].id)
-                    changed = True
-            if isinstance(n, ast.For):
-                # `for child_type, child_list in entity.items()` / `for x in handle` — members of a handle
-                it = n.iter
-                base = it.func.value if isinstance(it, ast.Call) and isinstance(it.func, ast.Attribute) and it.func.attr in ("items", "values") else it
-                if _handle_expr(base, tainted):
-                    names = [t.id for t in ast.walk(n.target) if isinstance(t, ast.Name)]
-                    if isinstance(it, ast.Call) and it.func.attr == "items" and len(names) == 2:
-                        names = names[1:]
-                    elif not isinstance(it, ast.Call):
-                        names = []  # iterating a group yields key strings
-                    for nm in names:
-                        if nm not in tainted:
-                            tainted.add(nm)
-                            changed = True
-    return tainted
+FLAT_CONTAINERS = ("Data", "Groups", "Objects", "Types")
 
 
 def _in_guarded_try(fn, node) -> bool:
-    for t in ast.walk(fn.node):
-        if isinstance(t, ast.Try):
-            if any(node in list(ast.walk(s)) for s in t.body):
-                for h in t.handlers:
-                    if h.type is None:
-                        return True
-                    names = h.type.elts if isinstance(h.type, ast.Tuple) else [h.type]
-                    if any(isinstance(x, ast.Name) and x.id in CATCHES for x in names):
-                        return True
-    return False
+    """node sits in code whose KeyError is absorbed (try/except KeyError or wider, `with suppress(KeyError)`)."""
+    return any(node is y for _, body in guard_regions(fn.node) for s in body for y in ast.walk(s))
+
+
+def _func_name(call) -> str | None:
+    f = call.func
+    return f.attr if isinstance(f, ast.Attribute) else getattr(f, "id", None)
+
+
+def _none_facts(names) -> dict:
+    facts = {}
+    for nm in names:
+        facts["notnone:" + nm] = False
+        facts["truthy:" + nm] = False
+    return facts
+
+
+def _reach_when_none(fn_node, names, avoid=lambda n: False):
+    """(cfg, nodes reachable from the entry when every name of `names` is None): branches whose (alias-expanded) test is
+    decided by that are pruned."""
+    g = CFG(fn_node)
+    al = Alias(fn_node, keep=names)
+    facts = _none_facts(names)
+    seen, work = set(), [g.entry]
+    while work:
+        n = work.pop()
+        if n in seen or avoid(n):
+            continue
+        seen.add(n)
+        succ = n.succ
+        if n.kind == "test" and n.ast is not None:
+            t = al.x(n.ast)
+            vals = {tv(t, nm, facts) for nm in names} - {None}
+            if vals == {True}:
+                succ = [(m, lab) for m, lab in succ if lab != "false"]
+            elif vals == {False}:
+                succ = [(m, lab) for m, lab in succ if lab != "true"]
+        work.extend(m for m, _ in succ)
+    return g, seen
 
 
 def rule_guard(ctx) -> RuleResult:
@@ -93,52 +87,50 @@ def rule_guard(ctx) -> RuleResult:
         floor=25,
     )
     p = ctx.p
-    R = p.cls("H5Reader")
     n_guard = {"try": 0, "in": 0, "get": 0, "mandatory": 0}
-    for name, fn in R.methods.items():
-        tainted = tainted_names(fn)
+    for name, fn, by_callers, handles in reader_units(ctx):
+        tainted = tainted_names(fn, handles)
         if not tainted:
             continue
+        al = Alias(fn.node)
+        roots = root_names(fn, tainted)
+        in_try = guarded_ids(fn.node)
         g = CFG(fn.node)
 
-        def transfer(node, st):
+        def transfer(node, st, al=al):
+            killed = bound_by(node)
+            if killed:
+                st = frozenset(f for f in st if not (f[3] & killed))
             if node.kind in ("test", "assert") and node.ast is not None:
-                return {"true": st | frozenset(facts_of(node.ast, True)), "false": st | frozenset(facts_of(node.ast, False)), None: st}
+                t = al.x(node.ast)
+                return {"true": st | frozenset(facts_of(t, True)), "false": st | frozenset(facts_of(t, False)), None: st}
             return st
 
         IN = forward(g, frozenset(), transfer, lambda a, b: a & b)
         for node in g.nodes:
-            if node.ast is None or isinstance(node.ast, list):
-                continue
-            src = node.ast
-            subs = []
-            if node.kind == "with":
-                for it in src.items:
-                    subs += [x for x in ast.walk(it.context_expr) if isinstance(x, ast.Subscript)]
-            else:
-                subs = [x for x in ast.walk(src) if isinstance(x, ast.Subscript)]
-            for x in subs:
-                if not isinstance(x.ctx, ast.Load) or not _handle_expr(x.value, tainted):
+            subs = [(e, x) for e in node_exprs(node) for x in ast.walk(e) if isinstance(x, ast.Subscript)]
+            for host, x in subs:
+                if not isinstance(x.ctx, ast.Load) or not handle_expr(x.value, tainted):
                     continue
-                if isinstance(x.slice, ast.Slice) or (isinstance(x.slice, ast.Tuple) and not x.slice.elts):
+                if is_materialisation(x):
                     continue  # materialisation of a dataset that was already reached
                 key, base = unparse(x.slice), unparse(x.value)
                 where = f"{fn.module.relpath}:{x.lineno}"
-                if _in_guarded_try(fn, x):
+                if id(x) in in_try or by_callers:
                     n_guard["try"] += 1
                     res.inst(f"H5Reader.{name}:{x.lineno} {base}[{key}] in try/except KeyError", nontrivial=True)
                     continue
-                if (key, base) in IN.get(node, frozenset()):
+                xe = al.x(x)
+                key_x, base_x = unparse(xe.slice), unparse(xe.value)
+                facts = IN.get(node, frozenset()) | inner_facts(host, x, al.x)
+                if any(f[0] == "in" and f[1] == key_x and f[2] == base_x for f in facts):
                     n_guard["in"] += 1
                     res.inst(f"H5Reader.{name}:{x.lineno} {base}[{key}] dominated by `{key} in {base}`", nontrivial=True)
                     continue
-                known = [f[2] for f in IN.get(node, frozenset()) if len(f) == 3 and f[0] == "==" and f[1] == key]
-                # locals by role: the project-group name is the local bound from list(<file>)[0]
-                roles_ = writer_roles(fn.node)
-                key_c, base_c = canon(x.slice, roles_), canon(x.value, roles_)
-                flat = key == "entity_type" and base_c.endswith("[base]") and all(k in ("Data", "Groups", "Objects", "Types") for k in known)
+                known = [f[2] for f in facts if f[0] == "==" and f[1] == key_x]
+                flat = is_kind_selector(xe.slice, fn) and is_project_group(xe.value, roots) and all(k in FLAT_CONTAINERS for k in known)
                 mandatory = (
-                    (key_c in ("base", "base[0]") and base in tainted)  # project group
+                    is_project_group(xe, roots)  # project group
                     or flat  # flat container chosen by kind (not the optional Root link)
                     or (name == "fetch_type")  # a missing type node may raise (mandatory item)
                 )
@@ -151,23 +143,52 @@ def rule_guard(ctx) -> RuleResult:
                          f"{base}[{key}] is read without an `in` test, .get or except KeyError: a file that lacks this optional "
                          "item cannot be opened (KeyError) although every other entity is intact")
         for x in ast.walk(fn.node):
-            if isinstance(x, ast.Call) and isinstance(x.func, ast.Attribute) and x.func.attr == "get" and _handle_expr(x.func.value, tainted):
+            if isinstance(x, ast.Call) and isinstance(x.func, ast.Attribute) and x.func.attr == "get" and handle_expr(x.func.value, tainted):
                 n_guard["get"] += 1
                 res.inst(f"H5Reader.{name}:{x.lineno} {unparse(x)[:50]} (.get)")
     res.notes.append(f"guard constructs: {n_guard}")
-    # Workspace side
-    fr = p.func("Workspace.fetch_or_create_root")
-    ifs = [n for n in ast.walk(fr.node) if isinstance(n, ast.If) and "is not None" in unparse(n.test) and n.orelse]
-    ok = any("create_entity" in unparse(ast.Module(body=i.orelse, type_ignores=[])) and "RootGroup" in unparse(ast.Module(body=i.orelse, type_ignores=[])) for i in ifs)
+    # Workspace side: with the Root link missing (the root loads as None) every normal path rebuilds a root group
+    fr = ctx.view("Workspace.fetch_or_create_root")
+    root_l = set(bound_from(fr.node, lambda e: any(
+        isinstance(c, ast.Call) and _func_name(c) == "load_entity"
+        and any(isinstance(a, ast.Constant) and a.value == "root" for a in list(c.args) + [k.value for k in c.keywords])
+        for c in ast.walk(e))))
+
+    def rebuilds_root(n):
+        return any(isinstance(c, ast.Call) and (
+            (_func_name(c) == "create_entity" and any(isinstance(a, ast.Name) and a.id == "RootGroup" for a in ast.walk(c)))
+            or (isinstance(c.func, ast.Name) and c.func.id == "RootGroup")) for e in node_exprs(n) for c in ast.walk(e))
+
+    ok = False
+    if root_l:
+        g, seen = _reach_when_none(fr.node, root_l)
+        g2, seen2 = _reach_when_none(fr.node, root_l, avoid=rebuilds_root)
+        ok = any(rebuilds_root(n) for n in seen) and g2.exit not in seen2
     res.inst("Workspace.fetch_or_create_root: missing Root link -> a root group is rebuilt", nontrivial=True, ok=ok)
     if not ok:
         res.find("Workspace", "fetch_or_create_root", "no branch rebuilding the root when the Root link is missing", fr.where,
                  "a file without the (optional) Root link cannot be opened")
-    le = p.func("Workspace.load_entity")
-    from ..roles import bound_from
-    attrs_l = set(bound_from(le.node, lambda e: "fetch_attributes" in unparse(e)))
-    ok = any(isinstance(n, ast.If) and isinstance(n.test, ast.Compare) and isinstance(n.test.left, ast.Name) and n.test.left.id in attrs_l and unparse(n.test).endswith(" is None")
-             and any(isinstance(s, ast.Return) for s in n.body) for n in ast.walk(le.node))
+    # a dangling link (the node's attributes read as None): the entity is left out — nothing is built from the missing record
+    le = ctx.view("Workspace.load_entity")
+    attrs_l = set(bound_from(le.node, lambda e: calls(e, "fetch_attributes") or "fetch_attributes" in unparse(e)))
+    ok = False
+    if attrs_l:
+        g, seen = _reach_when_none(le.node, attrs_l)
+        al = Alias(le.node)
+        record = set(attrs_l) | {al.text(ast.Name(id=nm, ctx=ast.Load())) for nm in attrs_l}
+
+        def uses_record(n):
+            for e in node_exprs(n):
+                for c in ast.walk(e):
+                    if isinstance(c, ast.Call) and _func_name(c) == "create_entity":
+                        return True
+                    if isinstance(c, (ast.Subscript, ast.Starred)) and al.text(strip_view(c.value)) in record:
+                        return True
+                if isinstance(e, ast.Assign) and isinstance(e.targets[0], (ast.Tuple, ast.List)) and isinstance(e.value, ast.Name) and e.value.id in attrs_l:
+                    return True
+            return False
+
+        ok = g.exit in seen and not any(uses_record(n) for n in seen)
     res.inst("Workspace.load_entity: missing node -> None (entity left out)", nontrivial=True, ok=ok)
     if not ok:
         res.find("Workspace", "load_entity", "no `attributes is None` early return", le.where,
@@ -185,54 +206,56 @@ def rule_scope(ctx) -> RuleResult:
         "items after it",
         floor=3,
     )
-    p = ctx.p
-    R = p.cls("H5Reader")
-    for name, fn in R.methods.items():
-        tainted = tainted_names(fn)
+    for name, fn, _, handles in reader_units(ctx):
+        tainted = tainted_names(fn, handles)
         if not tainted:
             continue
-        for t in ast.walk(fn.node):
-            if not isinstance(t, ast.Try):
-                continue
-            catches = False
-            for h in t.handlers:
-                names = [] if h.type is None else (h.type.elts if isinstance(h.type, ast.Tuple) else [h.type])
-                if h.type is None or any(isinstance(x, ast.Name) and x.id in CATCHES for x in names):
-                    catches = True
-            if not catches:
-                continue
-            loops = [lp for s in t.body for lp in ast.walk(s) if isinstance(lp, (ast.For, ast.ListComp, ast.DictComp, ast.GeneratorExp))]
+        al = Alias(fn.node)
+        seen_loops = set()
+        for _owner, region in guard_regions(fn.node):
+            loops = [lp for s in region for lp in ast.walk(s) if isinstance(lp, (ast.For, ast.ListComp, ast.SetComp, ast.DictComp, ast.GeneratorExp))]
             for lp in loops:
+                if id(lp) in seen_loops:
+                    continue  # nested guard regions: the same loop once
+                seen_loops.add(id(lp))
                 if isinstance(lp, ast.For):
                     body_nodes = [x for s in lp.body for x in ast.walk(s)]
                     iters = [(lp.target, lp.iter)]
                 else:
                     body_nodes = [x for part in ([lp.elt] if hasattr(lp, "elt") else [lp.key, lp.value]) for x in ast.walk(part)]
+                    body_nodes += [x for gen in lp.generators for c in gen.ifs for x in ast.walk(c)]
                     iters = [(gen.target, gen.iter) for gen in lp.generators]
-                own = set()  # (base text, key name): keys drawn from the handle itself
+                own = set()  # (handle text, key name): keys drawn from the handle itself
                 for tg, it in iters:
-                    base = it.func.value if isinstance(it, ast.Call) and isinstance(it.func, ast.Attribute) and it.func.attr in ("keys", "items") else it
+                    base = it.func.value if isinstance(it, ast.Call) and isinstance(it.func, ast.Attribute) and it.func.attr in ("keys", "items") else strip_view(it)
                     names = [x.id for x in ast.walk(tg) if isinstance(x, ast.Name)]
                     if names:
-                        own.add((unparse(base), names[0]))
-                inner_tries = [x for x in body_nodes if isinstance(x, ast.Try)]
-                inner_guarded = {id(y) for it in inner_tries for s in it.body for y in ast.walk(s)}
+                        own.add((al.text(base), names[0]))
+                inner_guarded = {id(y) for x in body_nodes if isinstance(x, (ast.Try, ast.With)) for _o, b in guard_regions(x) for s in b for y in ast.walk(s)}
                 in_tests = set()
                 for x in body_nodes:
-                    if isinstance(x, ast.If):
-                        for f in facts_of(x.test, True):
-                            if len(f) == 2:
-                                in_tests.add(f)
+                    tests = [x.test] if isinstance(x, (ast.If, ast.IfExp)) else (list(x.ifs) if isinstance(x, ast.comprehension) else [])
+                    for t in tests:
+                        for f in facts_of(al.x(t), True):
+                            if f[0] == "in":
+                                in_tests.add((f[1], f[2]))
+                if not isinstance(lp, ast.For):
+                    for gen in lp.generators:
+                        for t in gen.ifs:
+                            for f in facts_of(al.x(t), True):
+                                if f[0] == "in":
+                                    in_tests.add((f[1], f[2]))
                 bad = []
                 n_sub = 0
                 for x in body_nodes:
-                    if not (isinstance(x, ast.Subscript) and isinstance(x.ctx, ast.Load) and _handle_expr(x.value, tainted)):
+                    if not (isinstance(x, ast.Subscript) and isinstance(x.ctx, ast.Load) and handle_expr(x.value, tainted)):
                         continue
-                    if isinstance(x.slice, ast.Slice) or (isinstance(x.slice, ast.Tuple) and not x.slice.elts):
+                    if is_materialisation(x):
                         continue
                     n_sub += 1
-                    key, base = unparse(x.slice), unparse(x.value)
-                    if (base, key) in own or id(x) in inner_guarded or (key, base) in in_tests:
+                    xe = al.x(x)
+                    key_x, base_x = unparse(xe.slice), unparse(xe.value)
+                    if (base_x, key_x) in own or (unparse(x.value), unparse(x.slice)) in own or id(x) in inner_guarded or (key_x, base_x) in in_tests:
                         continue
                     bad.append(x)
                 res.inst(f"H5Reader.{name}:{lp.lineno} loop inside try/except: {n_sub} lookups, all on the handle's own keys or guarded per item", nontrivial=True, ok=not bad)
@@ -244,6 +267,10 @@ def rule_scope(ctx) -> RuleResult:
 
 
 PERSISTING = {"save_entity", "save_entity_type", "update_attribute", "finalize", "add_or_update_property_group", "remove_entity", "remove_children"}
+
+
+def _terminates(stmts) -> bool:
+    return bool(stmts) and isinstance(stmts[-1], (ast.Return, ast.Raise, ast.Continue, ast.Break))
 
 
 def rule_load(ctx, rule_id="C19.LOAD", prop="C19") -> RuleResult:
@@ -263,31 +290,43 @@ def rule_load(ctx, rule_id="C19.LOAD", prop="C19") -> RuleResult:
         raise AnalysisError("anchor Workspace.open not found")
     seen, work = {}, [start]
     CONSTRUCTORS = {"create_entity", "create_data", "create_object_or_group", "create_from_concatenation"}
+    SKIP = PERSISTING | CONSTRUCTORS | {"_io_call", "close"}
+
+    def receivers(fn):
+        """names that are the workspace itself: `self` and single-assignment aliases of it"""
+        sn = fn.self_name or "self"
+        return {sn} | {k for k, v in Alias(fn.node).defs.items() if isinstance(v, ast.Name) and v.id == sn}
+
     while work:
         fn = work.pop()
         if fn.name in seen:
             continue
+        fn = ctx.view(fn)  # private helpers (also module-level ones) expanded: their calls count where they run
         seen[fn.name] = fn
-        sn = fn.self_name or "self"
+        recv = receivers(fn)
         for c in ast.walk(fn.node):
-            if isinstance(c, ast.Call) and isinstance(c.func, ast.Attribute) and isinstance(c.func.value, ast.Name) and c.func.value.id == sn:
-                m = W.lookup(c.func.attr)
-                if m and m[1] == "method" and c.func.attr not in PERSISTING and c.func.attr not in CONSTRUCTORS and c.func.attr not in ("_io_call", "close"):
+            # `self.m(...)`, and `self.m` handed on or aliased (`load = self.load_entity`)
+            if isinstance(c, ast.Attribute) and isinstance(c.value, ast.Name) and c.value.id in recv and isinstance(c.ctx, ast.Load):
+                m = W.lookup(c.attr)
+                if m and m[1] == "method" and c.attr not in SKIP:
                     work.append(m[2])
     for nm, fn in sorted(seen.items()):
-        sn = fn.self_name or "self"
+        recv = receivers(fn)
+        al = Alias(fn.node)
         bad = []
         for c in ast.walk(fn.node):
             if not isinstance(c, ast.Call):
                 continue
-            f = c.func
-            if isinstance(f, ast.Attribute) and isinstance(f.value, ast.Name) and f.value.id == sn:
+            f = al.x(c.func)
+            if isinstance(f, ast.Attribute) and isinstance(f.value, ast.Name) and f.value.id in recv:
                 if f.attr in PERSISTING:
                     bad.append((c, f"self.{f.attr}(...)"))
-                elif f.attr == "_io_call" and c.args and unparse(c.args[0]).startswith("H5Writer"):
-                    bad.append((c, f"self._io_call({unparse(c.args[0])}, ...)"))
+                elif f.attr == "_io_call" and c.args and al.text(c.args[0]).startswith("H5Writer"):
+                    bad.append((c, f"self._io_call({al.text(c.args[0])}, ...)"))
                 elif f.attr in CONSTRUCTORS and f.attr == "create_entity":
-                    kw = {k.arg: unparse(k.value) for k in c.keywords}
+                    kw = {k.arg: al.text(k.value) for k in c.keywords}
+                    if len(c.args) > 1 and not any(isinstance(a, ast.Starred) for a in c.args[:2]):
+                        kw.setdefault("save_on_creation", al.text(c.args[1]))
                     if kw.get("save_on_creation") != "False":
                         bad.append((c, "self.create_entity(...) without save_on_creation=False"))
             elif unparse(f).startswith("H5Writer."):
@@ -304,24 +343,32 @@ def rule_load(ctx, rule_id="C19.LOAD", prop="C19") -> RuleResult:
         init = K.methods.get("__init__")
         if init is None or K.synthetic:
             continue
+        init = ctx.view(init)
         sn = init.self_name or "self"
+        al = Alias(init.node)
 
-        def walk(stmts, guarded):
+        def walk(stmts, guarded, K=K, init=init, sn=sn, al=al):
             for st in stmts:
                 if isinstance(st, ast.If):
                     walk(st.body, True)
                     walk(st.orelse, True)
+                    if _terminates(st.body) or _terminates(st.orelse):
+                        guarded = True  # guard clause: what follows runs only when the test went the other way
                 elif isinstance(st, (ast.For, ast.While, ast.With, ast.Try)):
                     for fld in ("body", "orelse", "finalbody"):
                         walk(getattr(st, fld, []) or [], guarded)
                     for h in getattr(st, "handlers", []):
                         walk(h.body, guarded)
-                elif isinstance(st, ast.Assign):
-                    for t in st.targets:
-                        if isinstance(t, ast.Attribute) and unparse(t.value) == f"{sn}.entity_type" and not t.attr.startswith("_"):
-                            res.inst(f"{K.name}.__init__:{st.lineno} {unparse(t)} = ... conditional on the current state: {guarded}", nontrivial=True, ok=guarded)
+                elif isinstance(st, (ast.Assign, ast.AnnAssign, ast.AugAssign)):
+                    tgs = st.targets if isinstance(st, ast.Assign) else [st.target]
+                    if getattr(st, "value", None) is None:
+                        continue
+                    for t in tgs:
+                        if isinstance(t, ast.Attribute) and al.text(t.value) == f"{sn}.entity_type" and not t.attr.startswith("_"):
+                            shown = f"{sn}.entity_type.{t.attr}"
+                            res.inst(f"{K.name}.__init__:{st.lineno} {shown} = ... conditional on the current state: {guarded}", nontrivial=True, ok=guarded)
                             if not guarded:
-                                res.find(K.name, "__init__", f"unconditional {unparse(t)} = {unparse(st.value)[:30]}", f"{init.module.relpath}:{st.lineno}",
+                                res.find(K.name, "__init__", f"unconditional {shown} = {unparse(st.value)[:30]}", f"{init.module.relpath}:{st.lineno}",
                                          f"the constructor also runs when entities are loaded; the type is shared and already on file from the second {K.name} on, so "
                                          "this assignment is a write: a file with two such objects cannot be opened read-only, and opening it writable rewrites the type")
 
@@ -339,29 +386,57 @@ def rule_rebuild(ctx) -> RuleResult:
         floor=1,
     )
     p = ctx.p
+    W = p.cls("Workspace")
     fr = p.func("Workspace.fetch_or_create_root")
-    fc = p.func("Workspace.fetch_children")
-    loops = [lp for lp in ast.walk(fr.node) if isinstance(lp, ast.For) and any(isinstance(c, ast.Call) and getattr(c.func, "attr", None) == "load_entity" for c in ast.walk(lp))]
+    fc = ctx.view("Workspace.fetch_children")
+    # the recovery loop: a loop (or comprehension) that loads entities — in fetch_or_create_root itself, in a helper expanded
+    # into it, or in a method of the workspace it hands the recovery to
+    LOOPS = (ast.For, ast.While, ast.ListComp, ast.SetComp, ast.DictComp, ast.GeneratorExp)
+    STOP = {"load_entity", "fetch_children", "create_entity", "get_entity", "_io_call"}
+
+    def loads(n, al):
+        return isinstance(n, ast.Call) and isinstance(al.x(n.func), (ast.Attribute, ast.Name)) and _func_name(ast.Call(func=al.x(n.func), args=[], keywords=[])) == "load_entity"
+
+    loops, seen, work = [], set(), [(fr, 0)]
+    while work:
+        fn, depth = work.pop()
+        if fn.name in seen:
+            continue
+        seen.add(fn.name)
+        v = ctx.view(fn)
+        al = Alias(v.node)
+        loops += [(lp, al) for lp in ast.walk(v.node) if isinstance(lp, LOOPS) and any(loads(c, al) for c in ast.walk(lp))]
+        sn = v.self_name or "self"
+        if depth < 2:
+            for c in ast.walk(v.node):
+                if isinstance(c, ast.Attribute) and isinstance(c.ctx, ast.Load) and isinstance(c.value, ast.Name) and c.value.id == sn and c.attr not in STOP:
+                    m = W.lookup(c.attr)
+                    if m and m[1] == "method":
+                        work.append((m[2], depth + 1))
     if not loops:
         raise AnalysisError("Workspace.fetch_or_create_root: recovery loop not found")
     flat_order = False
-    for lp in loops:
+    for lp, al in loops:
         for c in ast.walk(lp):
-            if isinstance(c, ast.Call) and getattr(c.func, "attr", None) == "load_entity":
+            if loads(c, al):
                 has_parent = any(k.arg == "parent" for k in c.keywords) or len(c.args) > 2
                 if not has_parent:
                     flat_order = True
     # does fetch_children re-attach a child that is already registered?
-    var = None
+    al = Alias(fc.node)
+    found = set()
     for a in ast.walk(fc.node):
-        if isinstance(a, ast.Assign) and isinstance(a.value, ast.Subscript) and isinstance(a.value.value, ast.Call) and getattr(a.value.value.func, "attr", None) == "get_entity":
-            var = a.targets[0].id
-    if var is None:
+        if isinstance(a, (ast.Assign, ast.AnnAssign, ast.NamedExpr)) and getattr(a, "value", None) is not None:
+            v = al.x(a.value)
+            if isinstance(v, ast.Subscript) and isinstance(v.value, ast.Call) and _func_name(v.value) == "get_entity":
+                tgs = a.targets if isinstance(a, ast.Assign) else [a.target]
+                found |= {t.id for t in tgs if isinstance(t, ast.Name)}
+    if not found:
         raise AnalysisError("Workspace.fetch_children: lookup of already registered children not found")
     ent = fc.params[1]
     reattach = any(
-        (isinstance(n, ast.Assign) and any(unparse(t) in (f"{var}.parent", f"{var}._parent") for t in n.targets))
-        or (isinstance(n, ast.Call) and getattr(n.func, "attr", None) == "add_children" and unparse(n.func.value) == ent)
+        (isinstance(n, ast.Assign) and any(isinstance(t, ast.Attribute) and t.attr in ("parent", "_parent") and isinstance(t.value, ast.Name) and t.value.id in found for t in n.targets))
+        or (isinstance(n, ast.Call) and _func_name(n) == "add_children" and isinstance(n.func, ast.Attribute) and al.text(n.func.value) == ent)
         for n in ast.walk(fc.node))
     ok = (not flat_order) or reattach
     res.inst("root rebuild: recovered entities end under their recorded parent (parent-first order, explicit parent, or re-attachment in fetch_children)",
